@@ -106,6 +106,20 @@ Lemma gen_warp_coords2_is_model (f : form) (ac : bool) (a : nat -> nat -> K) (tg
   = warp_coords 2 f ac (tab 2 (fcols 2 f) a) tg g src (vtab 2 x).
 Proof. destruct f, ac; reflexivity. Qed.
 
+(* the traced flip_coords = True coordinates are: pre-map (x, y order), flip, transform, flip back, source map *)
+Lemma gen_warp_coords_flip2_is_model (f : form) (ac : bool) (a : nat -> nat -> K) (tg g src : gridf) (x : nat -> K) :
+  gen_warp_coords_flip2 f ac (gN 2 tg) (gS 2 tg) (gC 2 tg) (gD 2 tg) (gN 2 g) (gS 2 g) (gC 2 g) (gD 2 g)
+     (gN 2 src) (gS 2 src) (gC 2 src) (gD 2 src) (tab 2 (fcols 2 f) a) (vtab 2 x)
+  = warp_coords_flip 2 f ac (tab 2 (fcols 2 f) a) tg g src (vtab 2 x).
+Proof. destruct f, ac; reflexivity. Qed.
+
+(* a transform that does not care about the component order (the identity, in particular every fresh transform) gives the
+   same sampling coordinates with and without flip_coords, for ANY target / transform / source grids *)
+Lemma warp_coords_flip_identity (D : nat) (f : form) (ac : bool) (M : list (list K)) (tg g src : gridf) (xc : list K) :
+  (forall y, gen_forward D f M y = y) ->
+  warp_coords_flip D f ac M tg g src xc = warp_coords D f ac M tg g src xc.
+Proof. intro H. unfold warp_coords_flip, warp_coords. rewrite !H, rev_involutive. reflexivity. Qed.
+
 Theorem warp_is_pullback2 (pad : padmode) (f : form) (a : nat -> nat -> K) (ac : bool) (tg g src : gridf)
     (img : list (list K)) (j : nat -> K) (px py ax ay b : K) :
   gwf 2 tg -> gwf 2 g -> gwf 2 src ->
